@@ -35,6 +35,29 @@ theorem varint_size_spec (v : Nat) (hv : v < 2^62) :
   simp only [Generated.VARINT_SIZE_T1, Generated.VARINT_SIZE_T2, Generated.VARINT_SIZE_T4]
   refine ⟨?_, ?_, ?_, ?_⟩ <;> (repeat' split) <;> omega
 
+/-- The varint code is uniquely decodable inside a stream: two encodings followed by arbitrary
+remaining bytes coincide only if both the integers and the remainders coincide (so a sequence of
+varints — a frame header, a SETTINGS body — can be split in only one way). -/
+theorem varint_prefix_free (a b : Nat) (ha : a < 2^62) (hb : b < 2^62) (r₁ r₂ : Bytes)
+    (h : enc a ++ r₁ = enc b ++ r₂) : a = b ∧ r₁ = r₂ := by
+  have h₁ := dec_enc a ha r₁
+  rw [h, dec_enc b hb r₂] at h₁
+  simp only [Option.some.injEq, Prod.mk.injEq] at h₁
+  exact ⟨h₁.1.symm, h₁.2.symm⟩
+
+/-- distinct representable integers have distinct encodings -/
+theorem varint_enc_injective (a b : Nat) (ha : a < 2^62) (hb : b < 2^62) (h : enc a = enc b) :
+    a = b :=
+  (varint_prefix_free a b ha hb [] [] (by simpa using h)).1
+
+/-- the encoded size never shrinks when the value grows -/
+theorem varint_size_mono (a b : Nat) (h : a ≤ b) : size a ≤ size b := by
+  unfold size
+  simp only [Generated.VARINT_SIZE_T1, Generated.VARINT_SIZE_T2, Generated.VARINT_SIZE_T4]
+  (repeat' split) <;> omega
+
+example : enc 63 ++ [1] ≠ enc 64 := by decide
+
 /-- `VarInt::try_from_u64` accepts exactly the values below 2^62 -/
 theorem varint_max_is_2_62_minus_1 : Generated.VARINT_MAX + 1 = 2^62 := by decide
 
